@@ -16,7 +16,7 @@ import (
 
 func defaultConfig() Config {
 	return Config{MergeDefault: true, MergeMaxBlocks: 60, Policy: map[string]string{}, Unwind: 64, MaxDepth: 200,
-		MaxSteps: 50_000_000, MaxPaths: 1 << 30, FeasMs: 5000, FinalMs: 60000, StopOnViol: true, Known: map[string]bool{}, AllocBound: 64}
+		MaxSteps: 50_000_000, MaxPaths: 1 << 30, FeasMs: 5000, FinalMs: 60000, OKSampleMax: 6, StopOnViol: true, Known: map[string]bool{}, AllocBound: 64}
 }
 
 // loadProgram loads the packages matching patterns in dir, with overlay files, and builds SSA.
@@ -58,6 +58,7 @@ type HarnessResult struct {
 	WallS     float64        `json:"wall_s"`
 	Prefix    []int          `json:"prefix,omitempty"`
 	Notes     []string       `json:"notes,omitempty"`
+	OKSamples []OKSample     `json:"-"`
 }
 
 // runHarness explores one harness function to completion.
@@ -97,6 +98,7 @@ func runHarness(prog *ssa.Program, fn *ssa.Function, cfg Config, prefix []int, s
 	hr.Stats = e.stats
 	hr.Events = e.events
 	hr.Notes = e.notes
+	hr.OKSamples = e.okSamples
 	hr.Covers = e.covers
 	hr.Entered = e.entered
 	hr.SolverSat, hr.SolverUns, hr.SolverUnk = e.sol.nSat, e.sol.nUnsat, e.sol.nUnknown
@@ -129,6 +131,10 @@ func (e *Exec) finishPath(o Outcome) {
 	switch o.kind {
 	case OReturn:
 		e.stats.PathsOK++
+		n := e.stats.PathsOK
+		if len(e.okSamples) < e.cfg.OKSampleMax && (n <= 2 || n&(n-1) == 0) {
+			e.sampleOK(o.st)
+		}
 		return
 	case ODead:
 		e.stats.PathsDead++
@@ -200,6 +206,8 @@ func main() {
 	switch os.Args[1] {
 	case "run":
 		cmdRun(os.Args[2:])
+	case "check":
+		cmdCheck(os.Args[2:])
 	default:
 		fmt.Println("unknown command")
 		os.Exit(2)
@@ -215,18 +223,28 @@ func cmdRun(args []string) {
 	fnName := fs.String("fn", "", "harness function name (comma separated)")
 	nomerge := fs.Bool("nomerge", false, "fork everywhere")
 	verbose := fs.Int("v", 0, "verbosity")
-	solver := fs.String("solver", "z3", "solver binary")
+	solver := fs.String("solver", "z3-new", "solver binary")
 	logp := fs.String("log", "", "SMT transcript path")
 	all := fs.Bool("all", false, "do not stop at the first violation")
+	slow := fs.Int("slow", 0, "log queries slower than this many ms")
 	unwind := fs.Int("unwind", 64, "loop bound")
 	fs.Parse(args)
 	overlay := map[string][]byte{}
 	if *ovd != "" {
 		files, _ := filepath.Glob(filepath.Join(*ovd, "*.go"))
 		pdir := filepath.Join(*dir, strings.TrimPrefix(*pkg, "./"))
+		pkgName := ""
 		for _, f := range files {
 			b, _ := os.ReadFile(f)
 			overlay[filepath.Join(pdir, "zz_"+filepath.Base(f))] = b
+			for _, l := range strings.Split(string(b), "\n") {
+				if strings.HasPrefix(l, "package ") && pkgName == "" {
+					pkgName = strings.TrimSpace(strings.TrimPrefix(l, "package "))
+				}
+			}
+		}
+		if tmpl, err := os.ReadFile("/verif/harness/vf_rt.go.tmpl"); err == nil && pkgName != "" {
+			overlay[filepath.Join(pdir, "zz_vf_rt.go")] = []byte(strings.Replace(string(tmpl), "PKGNAME", pkgName, 1))
 		}
 	}
 	t0 := time.Now()
@@ -242,6 +260,7 @@ func cmdRun(args []string) {
 	cfg.Verbose = *verbose
 	cfg.StopOnViol = !*all
 	cfg.Unwind = *unwind
+	SlowLog = *slow
 	exit := 0
 	for _, name := range strings.Split(*fnName, ",") {
 		fn := sp.Func(name)
@@ -258,4 +277,42 @@ func cmdRun(args []string) {
 		}
 	}
 	os.Exit(exit)
+}
+
+// sampleOK records a model of a completed path for translator validation (native replay must also complete).
+func (e *Exec) sampleOK(st *State) {
+	if e.sol.Check(st.pc, nil, e.cfg.FeasMs) != "sat" {
+		return
+	}
+	var ts []*Term
+	for _, d := range st.draws {
+		ts = append(ts, d.T)
+		ts = append(ts, d.Args...)
+	}
+	for _, o := range st.observes {
+		ts = append(ts, o.T)
+	}
+	vals, err := e.sol.Values(ts)
+	if err != nil {
+		return
+	}
+	var s OKSample
+	k := 0
+	for _, d := range st.draws {
+		dv := DrawVal{Name: d.Name, Val: vals[k]}
+		k++
+		if d.Kind == "uf" {
+			dv.Name = "uf:" + d.Name
+			for range d.Args {
+				dv.Args = append(dv.Args, vals[k])
+				k++
+			}
+		}
+		s.Model = append(s.Model, dv)
+	}
+	for _, o := range st.observes {
+		s.Observe = append(s.Observe, DrawVal{Name: o.Name, Val: vals[k]})
+		k++
+	}
+	e.okSamples = append(e.okSamples, s)
 }
